@@ -11,6 +11,8 @@ func init() { props["C13"] = checkC13 }
 func checkC13(r *Run) {
 	r.Explain = "C13: (R1) wallet.SignTransaction never writes through its txn parameter — the parameter's only use is the copy; (R2) every SignInput is dominated by: wallet can sign (not xpub, not encrypted), inner hash equals the computed one, indexes validated, slot null; success implies the inner hash is unchanged after signing; Transaction.SignInput itself requires a valid index, parallel Sigs, a null slot, and signs AddSHA256(InnerHash, In[index]); (R3) provenance: the index lists signed for a key are exactly the requested indexes (or all null slots) grouped by the owning address of the spent output, and the key is the secret of the wallet entry whose address equals that owner."
 	r.NotDec = "that produced signatures verify (C14)"
+	// the keys a bip44 wallet signs with are derived at the coordinates of the addresses they belong to
+	ruleBip44SecretCoordinates(r, "C13-R4")
 	ruleNullPredicates(r, "C13-R2", "cipher.Sig.Null")
 	const f = "wallet.SignTransaction"
 	fn := r.fn("C13-R1", f)
